@@ -18,6 +18,17 @@ import PyCraft.Drive.Writers
 import PyCraft.Drive.Packets
 import PyCraft.Drive.Lifecycle
 import PyCraft.Drive.Layout
+import PyCraft.Drive.C20Live
+import PyCraft.Drive.C05Nbt
+import PyCraft.Drive.C10Inbound
+import PyCraft.Drive.C20Maps
+import PyCraft.Drive.C15Thread
+import PyCraft.Drive.C06Dispatch
+import PyCraft.Drive.C16Ends
+import PyCraft.Drive.C11Errors
+import PyCraft.Drive.C12Progress
+import PyCraft.Drive.C13Roles
+import PyCraft.Drive.C01Dispatch
 import PyCraft.Drive.C04Codec
 import PyCraft.Drive.C03Nominal
 /-!
@@ -27,7 +38,7 @@ Anything unparsable yields `bad-op` (never a default value).
 -/
 open PyCraft PyCraft.Drive
 
-def handlers : List (List String → Option String) := [varint, mchash, position, auth, cfb8, dispatch, negotiate, Drive.frame, trackers, login, play, versions, writers, packets, lifecycle, Drive.layout, Drive.wireReal, Drive.loginwire, Drive.hswire, Drive.playwire, Drive.sessionwire, Drive.c03nominal, Drive.c04codec]
+def handlers : List (List String → Option String) := [varint, mchash, position, auth, cfb8, dispatch, negotiate, Drive.frame, trackers, login, play, versions, writers, packets, lifecycle, Drive.layout, Drive.wireReal, Drive.loginwire, Drive.hswire, Drive.playwire, Drive.sessionwire, Drive.c03nominal, Drive.c04codec, Drive.c01dispatch, Drive.roles, Drive.c12progress, Drive.playerr, Drive.c16ends, Drive.c06dispatch, Drive.c15thread, Drive.c20maps, Drive.c10inbound, Drive.nbt, Drive.c20live]
 
 def handle (toks : List String) : String :=
   match handlers.findSome? (· toks) with
